@@ -53,7 +53,7 @@ func (t *TableDump) ToCSV(w io.Writer) error {
 		record := make([]string, len(t.Columns))
 		for i, col := range t.Columns {
 			val, ok := row[col.Name]
-			if !ok || val == nil {
+			if !ok || isNullValue(val) {
 				record[i] = ""
 			} else {
 				record[i] = formatCSVValue(val)
@@ -81,7 +81,7 @@ func (t *TableDump) ToCSV(w io.Writer) error {
 
 // formatCSVValue formats a Go value as a CSV string
 func formatCSVValue(val interface{}) string {
-	if val == nil {
+	if isNullValue(val) {
 		return ""
 	}
 
